@@ -8,16 +8,38 @@ From GS Require Import Errs LTS Composite CompositeMon CompositeBase CompositeC1
      CompositeLocks CompositeLive CompositeC09.
 Import ListNotations.
 
+(* SYSTEM labels: the library's own steps and the steps a child owes under its contract (Run
+   returning nil / a cancellation error, Stop returning, ReloadWithConfig returning).
+   ENVIRONMENT labels: new API calls (Run/Reload/Stop), cancellation of the parent context,
+   observations, the RESULT of the configuration callback (its value is the environment's choice and
+   of unbounded size), and a child's Run returning a non-cancellation error (a failure is never
+   owed). *)
+Definition is_system (l : label) : bool :=
+  match l with
+  | LRunCall | LReloadCall _ | LStopApi _ | LCancel | LState _ | LCb _ _ => false
+  | LKExit _ _ e => benign e
+  | _ => true
+  end.
+Definition is_cb (l : label) : bool := match l with LCb _ _ => true | _ => false end.
+
+(* some step of the system, or the return of an outstanding callback, is enabled *)
 Definition prog (P : params) (s : state) : Prop :=
-  exists l s', env_label l = false /\ step P s l = Some s'.
+  exists l s', is_system l || is_cb l = true /\ step P s l = Some s'.
 
-(* children behave like the bundled runnables: Run returns once signalled or cancelled *)
-Definition good_children (P : params) : Prop := forall c, In c (pool P) -> c_exit c = OnSignal.
+Lemma sys_not_env l : is_system l || is_cb l = true -> env_label l = false.
+Proof. destruct l; cbn; auto; discriminate. Qed.
 
-Lemma good_children_spec P c : good_children P -> c_exit (spec_of P c) = OnSignal.
+Lemma prog_env P s : prog P s -> exists l s', env_label l = false /\ step P s l = Some s'.
+Proof. intros (l & s' & Hl & Hs). exists l, s'. split; [now apply sys_not_env|exact Hs]. Qed.
+
+(* every child's Run returns once signalled or cancelled: like the bundled runnables (OnSignal), or
+   possibly earlier and with any result, e.g. a failure (Free) *)
+Definition good_children (P : params) : Prop := forall c, In c (pool P) -> good_child c.
+
+Lemma good_children_spec P c : good_children P -> good_child (spec_of P c).
 Proof.
   intros H. unfold spec_of.
-  destruct (nth_in_or_default (N.to_nat c) (pool P) default_spec) as [Hin| ->]; [now apply H|reflexivity].
+  destruct (nth_in_or_default (N.to_nat c) (pool P) default_spec) as [Hin| ->]; [now apply H|now left].
 Qed.
 
 (* the excluded shape: a blocking Stop() on child c is waiting, a Run of c started after that
@@ -66,7 +88,8 @@ Lemma kid_inrun_prog P s i k :
   mem_N (k_child k) (sigs s) || kctx P k s = true -> prog P s.
 Proof.
   intros Hg Hk Hp Hc. exists (LKExit i (k_child k) None). cbn [step].
-  rewrite Hk, Hp, N.eqb_refl. unfold exit_ok. rewrite (good_children_spec P _ Hg), Hc. cbn. eauto.
+  rewrite Hk, Hp, N.eqb_refl. unfold exit_ok.
+  destruct (good_children_spec P (k_child k) Hg) as [E|E]; rewrite E, ?Hc; cbn; eauto.
 Qed.
 
 Lemma worker_prog P s j w :
@@ -432,3 +455,16 @@ Proof.
   intros Hf Hlc Hp Hg Hr Hidle Hpend.
   eapply no_stuck_state; eauto. apply not_overtaken; auto using greach_reach.
 Qed.
+
+(* the same two theorems in terms of "a label other than a new API call / cancellation / observation" *)
+Theorem no_stuck_state_env P s :
+  fix_c09 P = true -> good_pool P -> good_children P ->
+  greach P s -> ~ overtaken P s -> runt s <> TIdle -> pending s ->
+  exists l s', env_label l = false /\ step P s l = Some s'.
+Proof. intros. apply prog_env. apply no_stuck_state; assumption. Qed.
+
+Theorem no_stuck_state_lc_env P s :
+  fix_c09 P = true -> fix_lc P = true -> good_pool P -> good_children P ->
+  greach P s -> runt s <> TIdle -> pending s ->
+  exists l s', env_label l = false /\ step P s l = Some s'.
+Proof. intros. apply prog_env. apply no_stuck_state_lc; assumption. Qed.
